@@ -59,9 +59,8 @@ def shard(idx, n, seed, tier, params):
             uses = {}
             dead_macros = in_uninvoked_macro(prog)
             # line ranges of uninvoked macro definitions: what the one-off analysis of such a body binds is not judged
-            dead_ranges = [(st.marks["stmt"][0], st.marks["stmt"][1] + 1, st.marks["stmt"][3]) for st in prog.all_stmts()
-                           if st.k == "macrodef" and st.bscope.uid in dead_macros and "stmt" in st.marks]
-            in_dead = lambda f, ln: any(f == df and l0 <= ln <= l1 for df, l0, l1 in dead_ranges)
+            dead_ranges = L.dead_regions(prog, dead_macros)
+            in_dead = lambda f, ln, col: L.in_regions(dead_ranges, f, ln, col)
             # `super` tokens count as usages of the scope they leave; they are not identifier occurrences and are not judged
             flines = {fn: t.split("\n") for fn, t in files.items()}
             supers = {(o["file"], o["line"], o["c0"]) for o in r.occurrences if flines[o["file"]][o["line"]][o["c0"]:o["c1"]].lower() == "super"}
@@ -125,7 +124,7 @@ def shard(idx, n, seed, tier, params):
                     got = set((pr.name_of_uri(l["uri"]),) + L.rng_tuple(l["range"]) for l in (resp.get("result") or []))
                     # `.import name as alias`: the suite pins that the usage covers `name as alias`; only its start is compared
                     got = sorted(set(((g[0], g[1], g[2], g[3], import_ends[(g[0], g[1], g[2])]) if (g[0], g[1], g[2]) in import_ends else g) for g in got
-                                     if not in_dead(g[0], g[1])))
+                                     if not in_dead(g[0], g[1], g[2])))
                     exp = set((f, ln, c0, ln, c1) for (f, ln, c0, c1) in uses.get(d.uid, ()))
                     if incl:
                         exp.add((d.pos[0], d.pos[1], d.pos[2], d.pos[1], d.pos[3]))
@@ -143,7 +142,7 @@ def shard(idx, n, seed, tier, params):
                 resp = pr.pos_request("textDocument/documentHighlight", d.pos[0], d.pos[1], col)
                 if "result" in resp:
                     got = sorted(set(L.rng_tuple(h["range"]) for h in (resp.get("result") or [])
-                                     if not in_dead(d.pos[0], h["range"]["start"]["line"])))
+                                     if not in_dead(d.pos[0], h["range"]["start"]["line"], h["range"]["start"]["character"])))
                     exp = set((ln, c0, ln, c1) for (f, ln, c0, c1) in uses.get(d.uid, ()) if f == d.pos[0])
                     exp.add((d.pos[1], d.pos[2], d.pos[1], d.pos[3]))
                     if got != sorted(exp):
